@@ -135,16 +135,20 @@ def _compile_init(names: list[str], defaults: dict[str, Any]) -> types.CodeType:
 
      .. code-block :: Python
 
-        def __init__(self, a, b=3):
+        def __init__(self, a, b=_defaults["b"]):
             self.a = a
             self.b = b
 
+    The default values are not pasted into the source (most objects do not print as an expression that evaluates
+    to themselves): the code has to be executed in a scope that maps ``_defaults`` to the given ``defaults``.
+
     :param names: the format list"s names
     :type names: [str]
+    :param defaults: the default value per name, for the names that have one
     :return: the compiled code object
     :rtype: code
     """
-    arg_list = ", ".join((f"{name}={defaults.get(name)}" if name in defaults else name) for name in names)
+    arg_list = ", ".join((f"{name}=_defaults[{name!r}]" if name in defaults else name) for name in names)
     setters = "\n    ".join([f"self.{name} = {name}" for name in names])
     f_code = f"""
 def __init__(self, {arg_list}):
@@ -237,11 +241,12 @@ def vp_compile(vp_definition: type[T]) -> type[T]:
     local_scope = locals()
 
     # Load the function definitions into the local scope.
-    exec(_compile_init(vp_definition.names, {
+    local_scope["_defaults"] = {
         k: v.default
         for k, v in inspect.signature(vp_definition.__init__).parameters.items()
         if v.default is not inspect.Parameter.empty
-    }), globals(), local_scope)
+    }
+    exec(_compile_init(vp_definition.names, local_scope["_defaults"]), globals(), local_scope)
     exec(_compile_from_unpack_list(vp_definition, vp_definition.names), globals(), local_scope)
     exec(_compile_to_pack_list(vp_definition, vp_definition.format_list, vp_definition.names), globals(), local_scope)
 
